@@ -20,7 +20,8 @@ RULE = ("the whole configuration lattice is enumerated: {TripleStream,QuadStream
         "logical types x delimited {T,F} x frame size {1,3,250} x flow {inferred, FrameFlow, ManualFrameFlow, "
         "BoundedFrameFlow, FlatTriples-, FlatQuads-, Graphs-, DatasetsFrameFlow, each with default and with matching "
         "logical type} x entry points {generic stream_frames(sink|generator), flat_stream_to_file, grouped_stream_to_file, "
-        "sink.serialize; rdflib Graph.serialize(stream=|options=), flat_stream_to_file, grouped_stream_to_file} x inputs of "
+        "sink.serialize; rdflib Graph.serialize(stream=|options=), flat_stream_to_file, grouped_stream_to_file; generator entry "
+        "points also with the frames gathered in a list before being written} x inputs of "
         "1, 3, 5 statements with fresh terms and 4, 6 statements re-using terms (single-row statements). Oracle for every configuration that returns without raising: every stream the entry point "
         "created or was given has an empty flow, and the bytes decode (pyjelly parser and reference decoder) to the input "
         "(documented quads->TRIPLES projection applied). Raising is always acceptable. Non-trivial = distinct accepted "
@@ -100,12 +101,16 @@ def enumerate_configs(tier: str):
             else:
                 combos = [(0, 3), (0, 4)]
             for phys, arity in combos:
-                yield {"entry": ename, "integration": integ, "physical": phys, "arity": arity, "logical": logical,
-                       "delimited": delimited, "frame_size": fs, "flow": fk, "flow_logical": fl, "n": n}
+                c = {"entry": ename, "integration": integ, "physical": phys, "arity": arity, "logical": logical,
+                     "delimited": delimited, "frame_size": fs, "flow": fk, "flow_logical": fl, "n": n, "collect": False}
+                yield c
+                if ename in ("g_stream_frames_sink", "g_stream_frames_gen", "r_stream_frames_gen") and n in (5, -6):
+                    # a batching caller gathers the frames of the generator entry point before writing them
+                    yield dict(c, collect=True)
     for n in ns:
         for arity in (3, 4):
             yield {"entry": "g_sink_serialize", "integration": "generic", "physical": 0, "arity": arity, "logical": None,
-                   "delimited": True, "frame_size": 250, "flow": "inferred", "flow_logical": None, "n": n}
+                   "delimited": True, "frame_size": 250, "flow": "inferred", "flow_logical": None, "n": n, "collect": False}
 
 
 def build_flow(c: dict):
@@ -119,6 +124,10 @@ def build_flow(c: dict):
     if issubclass(cls, F.BoundedFrameFlow):
         kw["frame_size"] = c["frame_size"]
     return cls(**kw)
+
+
+def _maybe_list(frames, c: dict):
+    return list(frames) if c.get("collect") else frames
 
 
 def run_config(c: dict) -> dict:
@@ -141,11 +150,11 @@ def run_config(c: dict) -> dict:
             e = c["entry"]
             if e == "g_stream_frames_sink":
                 stream = pj.make_stream(cfg, options)
-                for fr in gser.stream_frames(stream, pj.generic_sink_of(stmts)):
+                for fr in _maybe_list(gser.stream_frames(stream, pj.generic_sink_of(stmts)), c):
                     write(fr, out)
             elif e == "g_stream_frames_gen":
                 stream = pj.make_stream(cfg, options)
-                for fr in gser.stream_frames(stream, (T.stmt_to_generic(s) for s in stmts)):
+                for fr in _maybe_list(gser.stream_frames(stream, (T.stmt_to_generic(s) for s in stmts)), c):
                     write(fr, out)
             elif e == "g_flat_to_file":
                 gser.flat_stream_to_file((T.stmt_to_generic(s) for s in stmts), out, options=options)
@@ -165,7 +174,7 @@ def run_config(c: dict) -> dict:
                 rser.grouped_stream_to_file((s for s in [store]), out, options=options)
             elif e == "r_stream_frames_gen":
                 stream = pj.make_stream(cfg, options)
-                for fr in rser.stream_frames(stream, (T.stmt_to_rdflib(s) for s in stmts)):
+                for fr in _maybe_list(rser.stream_frames(stream, (T.stmt_to_rdflib(s) for s in stmts)), c):
                     write(fr, out)
             else:
                 raise ValueError(e)
